@@ -708,7 +708,7 @@ func runC08(o Opts) (*Result, error) {
 	})
 
 	seen := map[string]bool{}
-	perShard := 40
+	perShard := 20
 	var cases []string
 	shard := 0
 	flush := func() error {
